@@ -167,6 +167,8 @@ func blankString(s string) bool {
 //@ func (*encoderState).reformatValue
 //@ split
 //@ property C06 C12 C20
+//@ ensures ok-kind: result2 == nil ==> len(src) > 0 && (normKind[src[0]] == 'n' || normKind[src[0]] == 'f' || normKind[src[0]] == 't' || normKind[src[0]] == '"' || normKind[src[0]] == '0' || normKind[src[0]] == '{' || normKind[src[0]] == '[')
+//@ ensures string-out: result2 == nil && len(src) > 0 && src[0] == '"' ==> len(result0) >= len(dst)+2 && result0[len(dst)] == '"'
 //@ requires e != nil && distinctArrays(dst, src) && 1 <= depth && depth <= maxNestingDepth+1 && blankString(e.Indent) && blankString(e.IndentPrefix)
 //@ modifies dst[len(dst):cap(dst)], e.Namespaces, e.Namespaces[:cap(e.Namespaces)]
 //@ ensures alias: sameOrFresh(result0, dst)
@@ -466,3 +468,40 @@ func tokRawOK(prevStart, prevEnd, n int, baseOffset int64, num uint64) bool {
 //@ at call e.NeedFlush#0 assert committed-prefix: vForall(0, old(len(e.Buf)), func(j int) bool { return e.Buf[j] == old(e.Buf[j]) })
 //@ at call e.NeedFlush#0 assert tags-cleared: (k == '{' || k == '[') ==> !e.Flags.Has(jsonflags.TagFlags)
 //@ at call e.NeedFlush#0 assert step: (k == '{' || k == '[') == (len(e.Tokens.Stack) == old(len(e.Tokens.Stack))+1) && (k == '}' || k == ']') == (len(e.Tokens.Stack) == old(len(e.Tokens.Stack))-1) && ((k == 'n' || k == 'f' || k == 't' || k == '"' || k == '0') ==> e.Tokens.Last == old(e.Tokens.Last)+1 && len(e.Tokens.Stack) == old(len(e.Tokens.Stack)))
+
+
+// ---------------------------------------------------------------- WriteValue
+
+//@ func (Value).Kind
+//@ property C06 C20
+//@ ensures blank: vForall(0, len(v), func(i int) bool { return isWS(v[i]) }) ==> result == 0
+//@ ensures first: vForall(0, len(v), func(i int) bool { return (!isWS(v[i]) && vForall(0, i, func(j int) bool { return isWS(v[j]) })) ==> result == normKind[v[i]] })
+
+// mustReorderObjects re-parses and permutes the members of the value in place
+// (through pooled coders and the library sort); it is NOT proved. Assumed: it
+// writes only the bytes of b.
+//
+//@ func mustReorderObjects
+//@ trusted NOT PROVED: in-place member reordering through pooled coders and slices.SortFunc; frame assumed (writes only b)
+//@ modifies b[:]
+
+// WriteValue follows the same commit protocol as WriteToken: the reformatted
+// value is built past the end of the buffer and the header is stored back only
+// after reformatValue validated the whole value and the state machine accepted
+// its kind; a rejected value leaves buffer header, offset and state machine as
+// they were.
+//
+//@ func (*encoderState).WriteValue
+//@ split
+//@ property C06 C02 C12 C20
+//@ requires e != nil && smInv(e.Tokens.Stack, e.Tokens.Last) && blankString(e.Indent) && blankString(e.IndentPrefix) && distinctArrays(e.Buf, v)
+//@ requires 0 <= e.baseOffset && e.baseOffset+int64(len(e.Buf)) < 1<<60 && len(e.Buf) < 1<<40 && len(v) < 1<<40
+//@ requires distinctArrays(e.Names.unquotedNames, e.Buf) && nsLocalOK(e.Names.offsets, e.Names.unquotedNames) && nsRemoteOK(e.Names.offsets, len(e.Buf)) && nsQuoted(e.Names.offsets, e.Buf)
+//@ requires names-depth: e.Tokens.Last.isObject() ==> len(e.Names.offsets) > 0 && (!e.Flags.Get(jsonflags.AllowDuplicateNames) ==> len(e.Namespaces) > 0)
+//@ modifies everything
+//@ at call wrapSyntacticError#0 assert rejected-invalid: sameSlice(e.Buf, old(e.Buf)) && e.baseOffset == old(e.baseOffset) && e.Tokens.Last == old(e.Tokens.Last) && len(e.Tokens.Stack) == old(len(e.Tokens.Stack))
+//@ at call wrapSyntacticError#1 assert rejected-trailing: sameSlice(e.Buf, old(e.Buf)) && e.baseOffset == old(e.baseOffset) && e.Tokens.Last == old(e.Tokens.Last) && len(e.Tokens.Stack) == old(len(e.Tokens.Stack))
+//@ at call wrapSyntacticError#2 assert rejected-kind: sameSlice(e.Buf, old(e.Buf)) && e.baseOffset == old(e.baseOffset) && e.Tokens.Last == old(e.Tokens.Last) && len(e.Tokens.Stack) == old(len(e.Tokens.Stack))
+//@ at call e.NeedFlush#0 assert committed-len: len(e.Buf) >= old(len(e.Buf))
+//@ at call e.NeedFlush#0 assert committed-prefix: vForall(0, old(len(e.Buf)), func(j int) bool { return e.Buf[j] == old(e.Buf[j]) })
+//@ at call e.NeedFlush#0 assert step: e.Tokens.Last == old(e.Tokens.Last)+1 && len(e.Tokens.Stack) == old(len(e.Tokens.Stack))
